@@ -1551,17 +1551,7 @@ def _cmp_fixfull(ctx, c, r, m, ts_, ys_, niter):
     # statistics and the chosen rate
     st = m["stats"]
     mv = [float(st["max"]), float(st["min"]), float(st["ave"]), float(st["mode"]), float(st["pct"])]
-    sr_impl = None
-    if len(r["tn"]) > 1:
-        sr_impl = 1.0 / float(np.mean(np.diff(r["tn"])))
-    stats_ok = np.allclose(r["sr_stats"], mv, rtol=1e-9, atol=0)
-    rate_ok = sr_impl is None or abs(sr_impl - float(m["sr"])) <= 1e-7 * float(m["sr"])
-    if not (stats_ok and rate_ok):
-        kept = [Fraction(float(ts_[i])) for i in _kept_before_spikes(m)]
-        if _sr_near_tie(np.diff([float(x) for x in kept]), st):
-            ctx.skip("fixtime: a rounding or comparison of the sample-rate statistics within 1e-9 of a tie")
-            return None
-        return ("fixtime-full-sr", {"sr_stats": r["sr_stats"], "sr": sr_impl}, {"sr_stats": mv, "sr": float(m["sr"]), "dsr": float(st["dsr"]), "by_mode": st["bymode"]})
+    # branch bookkeeping first (from the MODEL's view of the case), so that a disagreement never hides a declared branch
     ctx.case(("fixfull", json.dumps(c, sort_keys=True)), nontrivial=True, branch=br)
     if c["sr_opt"] == "auto":
         ctx.count("branch:fixtime-auto-" + ("mode" if st["bymode"] else "average"))
@@ -1577,6 +1567,25 @@ def _cmp_fixfull(ctx, c, r, m, ts_, ys_, niter):
         ctx.count("branch:fixtime-dropval-not-finite")
     if c.get("kind") == "sigma-tie":
         ctx.count("branch:fixtime-time-exactly-3-sigma")
+    if ds:
+        ctx.count("branch:fixtime-delspikes-" + _delspikes_params(ds)[0])
+        if m["spikes"]:
+            ctx.count("branch:fixtime-spikes-removed")
+            if len(m["alldrops"]) > len(set(m["spikes"]) | set(m["dropouts"] or []) | set(m["outtimes"] if c["delouttimes"] else [])):
+                ctx.count("branch:fixtime-loners-filled")
+    if m["warn"][0] or m["warn"][1]:
+        ctx.count("branch:fixtime-dt-size-warning")
+    sr_impl = None
+    if len(r["tn"]) > 1:
+        sr_impl = 1.0 / float(np.mean(np.diff(r["tn"])))
+    stats_ok = np.allclose(r["sr_stats"], mv, rtol=1e-9, atol=0)
+    rate_ok = sr_impl is None or abs(sr_impl - float(m["sr"])) <= 1e-7 * float(m["sr"])
+    if not (stats_ok and rate_ok):
+        kept = [Fraction(float(ts_[i])) for i in _kept_before_spikes(m)]
+        if _sr_near_tie(np.diff([float(x) for x in kept]), st):
+            ctx.skip("fixtime: a rounding or comparison of the sample-rate statistics within 1e-9 of a tie")
+            return None
+        return ("fixtime-full-sr", {"sr_stats": r["sr_stats"], "sr": sr_impl}, {"sr_stats": mv, "sr": float(m["sr"]), "dsr": float(st["dsr"]), "by_mode": st["bymode"]})
     for k in ("dropouts", "outtimes", "spikes", "alldrops"):
         if r[k] != m[k]:
             if ds and k in ("spikes", "alldrops") and not c.get("spike_exact"):
@@ -1587,11 +1596,6 @@ def _cmp_fixfull(ctx, c, r, m, ts_, ys_, niter):
             return ("fixtime-full-" + k, {kk: r[kk] for kk in ("dropouts", "outtimes", "spikes", "alldrops")},
                     {kk: m[kk] for kk in ("dropouts", "outtimes", "spikes", "alldrops")})
     if ds:
-        ctx.count("branch:fixtime-delspikes-" + _delspikes_params(ds)[0])
-        if m["spikes"]:
-            ctx.count("branch:fixtime-spikes-removed")
-            if len(m["alldrops"]) > len(set(m["spikes"]) | set(m["dropouts"] or []) | set(m["outtimes"] if c["delouttimes"] else [])):
-                ctx.count("branch:fixtime-loners-filled")
         if niter is not None and r["niter"] != niter:
             return ("fixtime-full-despike-niter", r["niter"], niter)
     if r["tp"] != m["tp"]:
@@ -1607,8 +1611,6 @@ def _cmp_fixfull(ctx, c, r, m, ts_, ys_, niter):
             ctx.skip("fixtime: a time step within rounding of 0.93/1.07 dt (or exactly 1 % of the steps)")
         else:
             return ("fixtime-full-dt-warnings", [r["warn_small"], r["warn_large"]], m["warn"])
-    if m["warn"][0] or m["warn"][1]:
-        ctx.count("branch:fixtime-dt-size-warning")
     # the time base
     mt = m["tnew"]
     tn = r["tn"]
@@ -2081,6 +2083,8 @@ def correspondence(ctx):
     _corr_rescale(ctx, drv)
     _corr_oct(ctx, drv)
     ctx.exhaustive = False
+    if ctx.disagreements:
+        return      # already broken: a disagreement can keep a case from reaching the place where its branch is counted
     ctx.require_branches(([
         "branch:edges-nearlin-below-tol", "branch:edges-nearlin-above-tol", "branch:edges-get-fl-fu-linear",
         "branch:edges-get-fl-fu-log", "branch:edges-input-scale-linear", "branch:edges-input-scale-log",
@@ -2877,6 +2881,35 @@ def _or_despike(ctx, c):
     ctx.count("oracle:despike")
 
 
+def _or_despike_limits(ctx, c):
+    """despike's documented limits: after ONE iteration (`maxiter=1`) `hilim`/`lolim` are `mean +- max(sigma*std, threshold)`;
+    a point is an outlier when it lies BEYOND them.  exclude_point='middle' (all points tested at once): flagged <=> outside
+    [lolim, hilim]; 'first' (the last outlier and the run before it): the last flagged point is outside its limits, every later
+    point is inside or on them"""
+    from pyyeti import dsp
+
+    x = np.array(c["x"], dtype=float)
+    for xp in ("middle", "first"):
+        with warnings.catch_warnings():
+            _quiet()
+            with np.errstate(all="ignore"):
+                s = dsp.despike(x.copy(), c["n"], sigma=c["sigma"], maxiter=1, threshold_value=c["tv"], exclude_point=xp)
+        pv = np.asarray(s.pv, dtype=bool)
+        out = (x > s.hilim) | (x < s.lolim)
+        if xp == "middle":
+            bad = not np.array_equal(pv, out)
+        else:
+            j = int(np.nonzero(pv)[0][-1]) if pv.any() else -1
+            bad = (j >= 0 and not out[j]) or bool(out[j + 1:].any())
+        if bad:
+            tie = bool(np.any((x == s.hilim) | (x == s.lolim)))
+            ctx.fail("despike-limit" + ("-tie" if tie else ""), "despike(maxiter=1, exclude_point=%r): the flagged points are not the points beyond hilim/lolim"
+                     % xp + (" (a point exactly ON a limit is not beyond it)" if tie else ""), dict(c, routine="despike-limits", xp_name=xp),
+                     {"pv": pv.astype(int).tolist(), "hilim": np.asarray(s.hilim).tolist()[:12]}, {"outside": out.astype(int).tolist()})
+            return
+    ctx.count("oracle:despike-limits")
+
+
 def _or_rescale_const(ctx, c):
     """a constant PSD comes out constant (inside bands; with extendends in every band that overlaps the input)"""
     from pyyeti import psd
@@ -2988,6 +3021,11 @@ def search(ctx, hints):
         _or_despike(ctx, {"x": _gen_spiky(rng, rng.randint(max(6, n_ + 2), 36), exact), "n": n_, "xp": rng.choice(["f", "f", "m", "k0", "k1"]),
                           "tv": rng.choice([None, 4.0, 2.0, 8.0]), "ts": float(rng.choice([2, 0, 1])), "sigma": rng.choice([8, 2, 3]),
                           "maxiter": rng.choice([-1, -1, 1, 2])})
+    _or_despike_limits(ctx, {"x": [2.0, 2, 2, 2, 6, 2, 2, 2, 2, 7, 2, 2, 2, 2, 2], "n": 5, "sigma": 8, "tv": 4.0})
+    for _ in range(ctx.pick(150, 1000)):
+        n_ = rng.choice([3, 5, 9])
+        _or_despike_limits(ctx, {"x": _gen_spiky(rng, rng.randint(n_ + 3, 30), True), "n": n_, "sigma": rng.choice([8, 2, 1]),
+                                 "tv": float(rng.choice([4, 2, 8, 3, 5, 16]))})
     for _ in range(ctx.pick(800, 6000)):
         told = _gen_told(rng, strict=True)
         _or_index_private(ctx, told, _gen_tnew(rng, told), nb)
@@ -3054,6 +3092,8 @@ def replay(ctx, data):
         _or_fix_options(sub, i)
     elif "steps" in i and "rate" in i:
         _or_fix_auto(sub, i)
+    elif i.get("routine") == "despike-limits":
+        _or_despike_limits(sub, i)
     elif "routine" in i and "xp" in i:
         _or_despike(sub, i)
     elif fam.startswith("fixtime-outlier-time-exactly") or fam == "fixtime-not-idempotent":
